@@ -173,8 +173,8 @@ def normalise(F, fn, keep=(), depth=3, _stack=()):
                 continue
             c = t["callee"]
             p = c["path"]
-            if any(k in p for k in keep):
-                continue
+            if any((p.endswith(k[:-1]) if k.endswith("$") else k in p) for k in keep):
+                continue    # "name$": exactly this function; "text": every callee whose path contains it
             g = F.fns.get(c["id"])
             if c.get("local") and g is not None and g.crate == fn.crate and g.id != fn.id and g.id not in _stack and depth > 0 \
                     and not g.raw.get("public") and not g.raw.get("impl_trait") and "{closure" not in g.path \
